@@ -424,13 +424,17 @@ func (rc *RunCtx) dumpState() {
 	}
 }
 
-// rankVV replaces actor ids by the slot of the client that owns them.
+// rankVV replaces actor ids by the slot (and generation) of the client that
+// owns them, so that logs do not depend on the process-random part of ids.
 func rankVV(rc *RunCtx, s string) string {
-	for _, sc := range rc.W.Clients {
-		if sc == nil || !sc.Cli.IsActive() {
-			continue
-		}
-		s = strings.ReplaceAll(s, sc.Cli.ID().String(), fmt.Sprintf("c%d", sc.Idx))
+	names := rc.W.ActorNames
+	keys := make([]string, 0, len(names))
+	for k := range names {
+		keys = append(keys, k)
+	}
+	sort.Strings(keys)
+	for _, k := range keys {
+		s = strings.ReplaceAll(s, k, names[k])
 	}
 	return s
 }
